@@ -101,13 +101,13 @@ def impl_only_collect(rep, scripts, oracle_props, label):
         f["shrunk"] = sb + tail
         f["shrunk_settle_from"] = len(sb)
     rep.cov[label] = dict(scripts=len(scripts), steps_total=sum(len(l) for _, l, _ in scripts),
-                          rule="implementation-only scripts (no Coq model): real apps with a replicated ChildOf hierarchy, judged by the implementation-side oracles")
+                          rule="implementation-only scripts (no Coq model comparison), judged by the implementation-side oracles: " + label)
     rep.cov["evaluations"] = rep.cov.get("evaluations", 0) + len(scripts)
     return fails
 
 
 def sim_check(prop, tier, seed, gen_kwargs_list, n_quick, n_thorough, oracle_props=None, extra_assumptions=(),
-              rule_extra="", settle=True, known_ids=(), custom_scripts=None, model_name="RV.Repl.Sys", impl_only_scripts=None):
+              rule_extra="", settle=True, known_ids=(), custom_scripts=None, model_name="RV.Repl.Sys", impl_only_scripts=None, impl_only_label="hierarchy"):
     rep = Report(prop, tier, seed)
     rng = random.Random(seed)
     proofs_ok, ready = prepare(rep, bins=("sim",))
@@ -116,7 +116,7 @@ def sim_check(prop, tier, seed, gen_kwargs_list, n_quick, n_thorough, oracle_pro
     oracle_fail, diverged = sim_collect(rep, prop, tier, rng, seed, gen_kwargs_list, n_quick, n_thorough, oracle_props, extra_assumptions,
                                         rule_extra, settle, known_ids, custom_scripts, top_level=True)
     if impl_only_scripts:
-        oracle_fail = oracle_fail + impl_only_collect(rep, impl_only_scripts(rng, tier), oracle_props or {prop}, "hierarchy")
+        oracle_fail = oracle_fail + impl_only_collect(rep, impl_only_scripts(rng, tier), oracle_props or {prop}, impl_only_label)
     return sim_conclude(rep, prop, proofs_ok, oracle_fail, diverged, model_name)
 
 
